@@ -637,6 +637,19 @@ class Ctx:
         return val
 
     def _feasible(self, t):
+        # (1) linear abstraction (every nonlinear monomial opaque): deterministic, no timeout games; unsat is conclusive
+        try:
+            from .solve import linear_abstraction
+            hs, g = linear_abstraction([f for _, f in self.facts] + [t], z3.BoolVal(False))
+            s0 = z3.SimpleSolver()
+            s0.set("timeout", 2000)
+            for h in hs:
+                s0.add(h)
+            if s0.check() == z3.unsat:
+                return False
+        except Exception:
+            pass
+        # (2) the real (nonlinear) query under a short budget; unknown counts as feasible
         s = z3.Solver()
         s.set("timeout", self.opts["feas_timeout_ms"])
         for _, f in self.facts:
